@@ -41,9 +41,9 @@ func main() {
 			fmt.Fprintln(os.Stderr, "-dir is required")
 			os.Exit(2)
 		}
-		na, np, nv := 14000, 6, 8
+		na, np, nv := 14000, 7, 8
 		if *tier == "thorough" {
-			na, np, nv = 120000, 40, 8
+			na, np, nv = 120000, 41, 8
 		}
 		if *ncases > 0 {
 			na = *ncases
